@@ -84,6 +84,15 @@ def init_param_of_attr(cls: Class, attr: str) -> Optional[str]:
                     ):
                         if isinstance(st.value, ast.Name) and st.value.id in pnames:
                             return st.value.id
+                        # stored through a normalising call / conditional that mentions the parameter of
+                        # the same name (self._x = f(x) / x if x is not None else d): still "the configured x"
+                        # - that the stored value IS the given one for every given number is decided
+                        # separately on values (R03.8)
+                        base = attr.lstrip("_")
+                        used = {n.id for n in ast.walk(st.value) if isinstance(n, ast.Name)} & pnames
+                        same = [q for q in used if q.lstrip("_") == base]
+                        if same and not isinstance(st.value, ast.Name):
+                            return same[0]
     return None
 
 
